@@ -180,6 +180,24 @@ fn check_batch(out: &mut Out, v: Version, tree: &MerkleTree, leaves: &[Vec<u8>],
                 out.violation(&format!("C04 binding interior-node-accepted-as-leaf version={}", vname(v)), &format!("n={} position {}: the pair of sibling nodes, given as a leaf at index {} with the shortened path, recomputes the root", n, i, i >> 1), replay_of(v, history, "interior-as-leaf"));
             }
         }
+        // a partial element appended (1..w-1 junk bytes): must not verify (a refusal by panic is fine)
+        for extra in [1usize, w / 2, w - 1] {
+            if extra == 0 || extra >= w {
+                continue;
+            }
+            let mut q = p.clone();
+            q.extend_from_slice(&rng.bytes(extra));
+            out.obs("binding_probes", 1);
+            out.obs("partial_element_probes", 1);
+            let r = catch_unwind(AssertUnwindSafe(|| tree.root_from_paths(i, &leaves[i], &q)));
+            match r {
+                Ok(got) if got == b.root => out.violation(&format!("C04 binding partial-element-ignored version={}", vname(v)), &format!("n={} position {}: the path followed by {} stray bytes still recomputes the root", n, i, extra), replay_of(v, history, "partial-element")),
+                Ok(_) => {}
+                Err(_) => {
+                    take_panics();
+                }
+            }
+        }
         // one element appended (width: that of this profile's nodes; for n = 1 infer from root)
         let aw = w;
         for filler in [vec![0u8; aw], rng.bytes(aw)] {
